@@ -17,7 +17,7 @@ func passClass(r *vh.Rng, hostile int) string {
 	if r.Intn(100) >= hostile {
 		return "cur"
 	}
-	return r.PickS("prev", "prev", "pub", "other", "other", "bad", "empty", "cur1")
+	return r.PickS("prev", "prev", "pub", "other", "other", "bad", "empty", "cur1", "curnul")
 }
 
 // GenOps pre-generates an abstract history (selectors are resolved against the model at run time).
